@@ -428,7 +428,7 @@ C42_FILES = [
     "dfir_lang/src/union_find.rs",
     "hydro_lang/src/compile/ir/mod.rs",
 ]
-HASH_TY = re.compile(r"\b(HashMap|HashSet|FxHashMap|FxHashSet|IndexMap|IndexSet)\b")
+HASH_TY = re.compile(r"\b(HashMap|HashSet|FxHashMap|FxHashSet|SparseSecondaryMap)\b")
 ITER_METH = re.compile(r"\.(iter|iter_mut|into_iter|keys|values|values_mut|into_keys|into_values|drain|retain|extract_if)\s*\(")
 
 
@@ -469,7 +469,7 @@ def scan_hash_sites():
                 continue
             ty = HASH_TY.search(line).group(1)
             found = False
-            for m in re.finditer(r"(?:let\s+(?:mut\s+)?(\w+)\s*[:=])|(?:\b(\w+)\s*:\s*&?(?:mut\s+)?[\w:<>, ]*?(?:HashMap|HashSet|FxHashMap|FxHashSet|IndexMap|IndexSet))", line):
+            for m in re.finditer(r"(?:let\s+(?:mut\s+)?(\w+)\s*[:=])|(?:\b(\w+)\s*:\s*&?(?:mut\s+)?[\w:<>, ]*?(?:HashMap|HashSet|FxHashMap|FxHashSet|SparseSecondaryMap))", line):
                 nm = m.group(1) or m.group(2)
                 if nm and nm not in ("pub", "mut", "static"):
                     names.setdefault(nm, ty)
